@@ -26,6 +26,17 @@ def midSt (s : St) (i k : Nat) : St :=
   notifyProd { s with items := s.items.set i .done, busy := s.busy - 1, unfinished := s.unfinished - 1,
                       idleReady := s.idleReady + 1, log := s.log ++ [Ev.mk k i true] }
 
+theorem invN_midSt {s : St} {i k : Nat} (h : InvN s) (hrun : s.items[i]? = some (.run k)) :
+    InvN (midSt s i k) := by
+  obtain_inv h
+  destruct_st s
+  simp only [St.qi, St.qsize, St.live, St.wt] at *
+  have hc := countRun_set (q := .done) hrun
+  have hp := countRun_pos hrun
+  simp only [isRun] at hc
+  simp only [midSt, notifyProd]
+  inv_fields
+
 theorem invN_task {c : Cfg} {s s' : St} {i : Nat} {ok : Bool} (h : InvN s)
     (hs : stepTask c s i ok = some s') : InvN s' := by
   simp only [stepTask] at hs
@@ -42,15 +53,7 @@ theorem invN_task {c : Cfg} {s s' : St} {i : Nat} {ok : Bool} (h : InvN s)
         simp only [isRun] at hc
         inv_fields
       · -- last task: item_done, then get()
-        have hmid : InvN (midSt s i k) := by
-          obtain_inv h
-          destruct_st s
-          simp only [St.qi, St.qsize, St.live, St.wt] at *
-          have hc := countRun_set (q := .done) hrun
-          have hp := countRun_pos hrun
-          simp only [isRun] at hc
-          simp only [midSt, notifyProd]
-          inv_fields
+        have hmid : InvN (midSt s i k) := invN_midSt h hrun
         apply invN_getw hmid
         cases hs
         simp [stepGetw, notifyProd, midSt]
